@@ -18,14 +18,12 @@
       P:params          field values differ
       D:accept          accept/reject differs from the modelled acceptance rules (not demanded
                         by the property; reported as a note)                                  *)
-EXTENDS Router, Json, IOUtils
+EXTENDS RouterUniverse, Router
 
-U      == JsonDeserialize(IOEnv.ROUTER_UNIVERSE)
 Traces == JsonDeserialize(IOEnv.TRACE_FILE)
-JTS  == U.ts
-JBad == Range(U.bad)
-Tab(k) == LET R == {r \in Range(U.conv) : r.k = k} IN [s \in {r.s : r \in R} |-> CHOOSE r \in R : r.s = s]
-JCT  == [int |-> Tab("int"), float |-> Tab("float"), uuid |-> Tab("uuid"), dt |-> Tab("dt")]
+JTS  == UTS
+JBad == UBad
+JCT  == UCT
 
 (* Router's `tree` is used as the tree of the accepted adds; its other variables are idle here *)
 VARIABLES tid, l, verdict
